@@ -95,7 +95,7 @@ def run(ctx):
     ups = ctx.sites(F, 'Peers::update_prove_state', 1)
     rbs = P.call_sites(F, 'Storage::rollback_to_block')
     rms = P.call_sites(F, 'Storage::remove_matched_blocks')
-    ctx.floor('C04.r2', 'rollback_to_block sites in commit_prove_state', len(rbs), 2)
+    ctx.floor('C04.r2', 'rollback_to_block sites in commit_prove_state', len(rbs), 1)   # 2 on the reviewed tree; merging the two branches is legitimate
     cfg = P.cfg(F)
     fms = P.call_sites(F, fm)
     ctx.floor('C04.r2', 'fork search (find_map over reorg headers)', len(fms), 1)
@@ -109,7 +109,7 @@ def run(ctx):
     ctx.floor('C04.r2', 'return Ok(false)', len(rets_false), 1)
     ctx.guard('C04.r2', F, fm, 'None', rets_false, unconditional=True, gname='fork search')
     # on the reorg branch the tip write is preceded by the rollback
-    ctx.guard('C04.r2', F, fm, 'None', uls, unconditional=False, removed={b for b, t in rbs}, gname='fork search (paths avoiding rollback_to_block)')
+    tip_after_rollback(ctx, 'C04.r2')
     from engine.locks import Locks
     L = Locks(P)
     for b, t in rbs + rms:
@@ -167,3 +167,19 @@ def stale_filter_hashes(ctx):
                 ok = True
     ctx.ob('C04.r4', U.name, 'latest block filter hashes are dropped when the new prove state has reorg headers', ok, at=recv[0][1].span,
            clear_calls=len(clears), unconditional=uncond)
+
+
+def tip_after_rollback(ctx, rule):
+    """On the reorg branch of commit_prove_state the new tip is persisted only after rollback_to_block: with the fork search
+    having found a fork point, no path reaches update_last_state that avoids the rollback.  (Crash view, C08: a tip written first
+    and a crash before the rollback leaves the fork tip stored with the index, script numbers and matched-block records of the
+    abandoned chain; after restart no fork is detected any more.)"""
+    P = ctx.prog
+    F = ctx.body(CPS)
+    fm = lambda k, t: k.endswith('Iterator>::find_map')
+    uls = ctx.sites(F, 'Storage::update_last_state', 1)
+    rbs = P.call_sites(F, 'Storage::rollback_to_block')
+    if not rbs:
+        ctx.ob(rule, F.name, 'the index is rolled back before the new tip is persisted', False, problem='no rollback_to_block call in commit_prove_state')
+        return
+    ctx.guard(rule, F, fm, 'None', uls, unconditional=False, removed={b for b, t in rbs}, gname='fork search (paths avoiding rollback_to_block)')
